@@ -124,6 +124,30 @@ fn signature(case: &Case) -> Option<String> {
                 _ => {}
             }
         }
+        if !case.streaming && case.cols.iter().any(|c| c.kt.is_nested()) {
+            // F5: an EmitFirst while two or more hash values are each shared by two or more distinct keys
+            // (only nested columns produce equal hashes for distinct keys: NULL / empty list, skipped NULL
+            // elements). Over-approximated on the keys interned since the store was last emptied.
+            let mut keys: Vec<Key> = vec![];
+            for op in &case.ops {
+                match op {
+                    Op::Intern { rows, .. } => {
+                        for r in rows {
+                            let k = key_of_row(&case.cols, r);
+                            if !keys.contains(&k) {
+                                keys.push(k);
+                            }
+                        }
+                    }
+                    Op::EmitAll | Op::Clear(_) | Op::ClearRaw(_) => keys.clear(),
+                    Op::EmitFirst { .. } => {
+                        if colliding_buckets(&case.cols, &keys) >= 2 {
+                            return Some("column:emit-first-with-several-colliding-buckets".into());
+                        }
+                    }
+                }
+            }
+        }
         return None;
     }
     if case.cols.len() != 1 {
@@ -169,6 +193,36 @@ fn signature(case: &Case) -> Option<String> {
     None
 }
 
+fn key_of_row(cols: &[Col], row: &[Option<u8>]) -> Key {
+    cols.iter()
+        .enumerate()
+        .map(|(ci, c)| match row.get(ci).copied().flatten() {
+            Some(ch) => Some(norm(&c.kt, ch)),
+            None if c.nullable => None,
+            None => Some(0),
+        })
+        .collect()
+}
+
+/// number of 64-bit row hashes shared by two or more of the given distinct keys (same hashing as
+/// `GroupValuesColumn`: `create_hashes` with the aggregation seed)
+fn colliding_buckets(cols: &[Col], keys: &[Key]) -> usize {
+    if keys.len() < 4 {
+        return 0;
+    }
+    let arrays: Vec<ArrayRef> = cols.iter().enumerate().map(|(ci, c)| value_array(&c.kt, &keys.iter().map(|k| k[ci]).collect::<Vec<_>>(), 0)).collect();
+    let mut hashes = vec![0u64; keys.len()];
+    let seed = datafusion_common::hash_utils::RandomState::with_seed(15395726432021054657);
+    if datafusion_common::hash_utils::create_hashes(&arrays, &seed, &mut hashes).is_err() {
+        return 0;
+    }
+    let mut count: BTreeMap<u64, usize> = BTreeMap::new();
+    for h in hashes {
+        *count.entry(h).or_default() += 1;
+    }
+    count.values().filter(|c| **c >= 2).count()
+}
+
 /// arrow's cast cannot build dictionaries over Boolean / Duration / Interval values; the row-based
 /// stores report that as a clean error when emitting such a key
 fn unsupported(e: &datafusion_common::DataFusionError) -> bool {
@@ -204,17 +258,23 @@ fn cols_strategy() -> BoxedStrategy<Vec<Col>> {
     // (arrow cannot re-pack Boolean / Duration / Interval values into a dictionary, which the row-based
     // store needs on emit: those dictionary value types are replaced there)
     let rows = (prop::collection::vec(col(any_kt()), 1..=3), any::<bool>()).prop_map(|(mut v, nullable)| {
-        for c in v.iter_mut() {
-            if let KT::Dict(k, val) = &c.kt {
-                if matches!(**val, KT::Bool | KT::DurS | KT::DurMs | KT::DurUs | KT::DurNs | KT::IntYM | KT::IntDT | KT::IntMDN) {
-                    c.kt = KT::Dict(*k, Box::new(KT::Utf8));
-                }
-            }
-        }
         v.push(Col { kt: KT::Dec64, nullable });
         v
     });
-    prop_oneof![5 => single, 5 => multi, 2 => rows].boxed()
+    prop_oneof![5 => single, 5 => multi, 2 => rows]
+        .prop_map(|mut v| {
+            if impl_label(&v) == "impl=rows" {
+                for c in v.iter_mut() {
+                    if let KT::Dict(k, val) = &c.kt {
+                        if matches!(**val, KT::Bool | KT::DurS | KT::DurMs | KT::DurUs | KT::DurNs | KT::IntYM | KT::IntDT | KT::IntMDN) {
+                            c.kt = KT::Dict(*k, Box::new(KT::Utf8));
+                        }
+                    }
+                }
+            }
+            v
+        })
+        .boxed()
 }
 
 impl Property for C13 {
@@ -235,10 +295,10 @@ impl Property for C13 {
                 let intern = (prop::collection::vec(prop::collection::vec(cell(wide), nc..=nc), 0..=max_rows), prop_oneof![2 => Just(0u8), 1 => 1u8..5], any::<u8>())
                     .prop_map(|(rows, pad, rot)| Op::Intern { rows, pad, rot });
                 let op = prop_oneof![
-                    6 => intern,
-                    3 => (any::<u16>(), prop::bool::weighted(0.3)).prop_map(|(n, verify)| Op::EmitFirst { n, verify }),
+                    24 => intern,
+                    12 => (any::<u16>(), prop::bool::weighted(0.3)).prop_map(|(n, verify)| Op::EmitFirst { n, verify }),
                     1 => Just(Op::EmitAll),
-                    1 => (0u8..40).prop_map(Op::Clear),
+                    4 => (0u8..40).prop_map(Op::Clear),
                     1 => (0u8..40).prop_map(Op::ClearRaw),
                 ];
                 prop::collection::vec(op, 1..=max_ops).prop_map(move |ops| Case { cols: cols.clone(), streaming, ops })
@@ -246,7 +306,7 @@ impl Property for C13 {
             .boxed()
     }
     fn budget(&self, tier: Tier) -> Budget {
-        Budget::new(tier.pick(4_000, 300_000), tier.pick(8, 16)).min_nontrivial(tier.pick(300, 20_000))
+        Budget::new(tier.pick(40_000, 1_500_000), tier.pick(8, 16)).min_nontrivial(tier.pick(3_000, 100_000))
     }
     fn rule(&self) -> String {
         "1-4 typed key columns (every primitive, bool, bytes, views, fixed-size binary, dictionary, nested row-backed, Decimal64 forcing GroupValuesRows), GroupOrdering None/Full, \
@@ -262,6 +322,9 @@ impl Property for C13 {
         ]
     }
     fn known_signature(&self, case: &Case) -> Option<String> {
+        if std::env::var("VERIF_IGNORE_KNOWN").map(|v| v.split(',').any(|x| x == "C13")).unwrap_or(false) {
+            return None; // used with mutrun to check candidate repairs against the excluded sub-shapes
+        }
         signature(case)
     }
     fn run(&self, case: &Case) -> CaseResult {
@@ -286,7 +349,13 @@ impl Property for C13 {
             labels.push("ordering=full".into());
         }
         for c in &case.cols {
-            labels.push(format!("type={}", c.kt.name()));
+            match &c.kt {
+                KT::Dict(k, v) => {
+                    labels.push(format!("type=Dict({k:?})"));
+                    labels.push(format!("dict-value={}", v.name()));
+                }
+                o => labels.push(format!("type={}", o.name())),
+            }
             if case.cols.len() > 1 || labels[0] == "impl=column" {
                 labels.push(col_class(&c.kt).into());
             }
@@ -319,17 +388,7 @@ impl Property for C13 {
                 })
                 .collect()
         };
-        let key_of = |row: &Vec<Option<u8>>| -> Key {
-            case.cols
-                .iter()
-                .enumerate()
-                .map(|(ci, c)| match row.get(ci).copied().flatten() {
-                    Some(ch) => Some(norm(&c.kt, ch)),
-                    None if c.nullable => None,
-                    None => Some(0),
-                })
-                .collect()
-        };
+        let key_of = |row: &Vec<Option<u8>>| -> Key { key_of_row(&case.cols, row) };
 
         // one intern step against the model; returns (had_old, had_new)
         macro_rules! intern {
@@ -340,6 +399,9 @@ impl Property for C13 {
                 groups.push(usize::MAX); // intern must overwrite whatever is in the vector
                 if let Err(e) = gv.intern(&arrays, &mut groups) {
                     bad!("step {}: intern failed: {e}", $step);
+                }
+                if std::env::var_os("VF_DEBUG").is_some() {
+                    eprintln!("step {}: intern keys {:?} -> groups {:?}", $step, keys, groups);
                 }
                 if groups.len() != keys.len() {
                     bad!("step {}: intern returned {} group ids for {} rows", $step, groups.len(), keys.len());
@@ -482,6 +544,7 @@ impl Property for C13 {
                     if !model.is_empty() {
                         let out = match gv.emit(EmitTo::All) {
                             Ok(o) => o,
+                            Err(e) if unsupported(&e) => return CaseResult::discard(format!("engine rejects the key type: {e}")),
                             Err(e) => bad!("step {step}: emit(All) failed: {e}"),
                         };
                         let keys = std::mem::take(&mut model);
